@@ -53,6 +53,14 @@ Theorem C04_history : forall ws rs c s,
 Proof. exact history_refines. Qed.
 Print Assumptions C04_history.
 
+Example C04_history_nonvacuous :
+  let ws := [WWriteRegs 0 2 4 [1; 2; 3; 4]; WRead Holding 0 1; WMask 0 0 7; WRead Holding 0 1; WRead Holding 1 1] in
+  let rs := map req_of ws in
+  Forall2 (fun w r => decode_attrs w = Ok r) ws rs /\ Forall other_ok ws /\ Forall in_region ws /\
+  map vw (snd (serve_all XC std (ctx1 0) rs)) =
+    [Some (SExc 144 2); Some (SRead 3 [18]); Some (SMask 0 0 7); Some (SRead 3 [7]); Some (SExc 131 2)].
+Proof. repeat split; try (repeat constructor). Qed.
+
 (* a read after an accepted write returns exactly the values written *)
 Theorem C04_read_returns_latest_write : forall c w r c1 o1 t a vs rr c2 o2,
   inv c -> decode_attrs w = Ok r -> other_ok w -> in_region w ->
